@@ -9,6 +9,8 @@ package agreement
 //	VERIF_ND_SCENARIO=doublecommit   crash-restart-crash of one honest node + one Byzantine of four  → two commits? (C01/C02 finding)
 //	VERIF_ND_SCENARIO=fastvote       fast-recovery timeout handled while Step ≤ cert, then a soft threshold → cert vote after `down ⊥`
 //	VERIF_ND_SCENARIO=latepayload    a next-quorum of nodes sees the soft threshold but gets the payload only after its deadline (step next)
+//	VERIF_ND_SCENARIO=recrash-<P>-<soft|next>-<k>-<0|1>   k honest nodes crash and restore in recovery period P after that vote,
+//	                                 the period's votes are lost; 1 = a fourth node saw the period-0 cert quorum and committed
 //	VERIF_ND_SCENARIO=trimdrop       proposalStore.trim drops the payload of the value a node cert-voted (7 nodes, 2 Byzantine)
 //	VERIF_ND_SCENARIO=fastcommit     … extended to a ⊥ next-quorum and a cert quorum sharing honest nodes → two commits?
 
@@ -16,6 +18,8 @@ import (
 	"fmt"
 	"os"
 	"sort"
+	"strconv"
+	"strings"
 	"testing"
 	"time"
 
@@ -246,7 +250,7 @@ func TestVerifNetDriveScenario(t *testing.T) {
 	if name == "fastcommit0" {
 		cfg.honest = []bool{true, true, true, true}
 	}
-	if name == "latepayload" {
+	if name == "latepayload" || strings.HasPrefix(name, "recrash-") {
 		cfg.honest = []bool{true, true, true, true}
 	}
 	if name == "stalecert" {
@@ -282,7 +286,18 @@ func TestVerifNetDriveScenario(t *testing.T) {
 		case "trimdrop":
 			scenTrimDrop(s)
 		default:
-			t.Fatalf("unknown scenario %s", name)
+			var per, k, x int
+			var after string
+			if f := strings.Split(name, "-"); len(f) == 5 && f[0] == "recrash" {
+				per, _ = strconv.Atoi(f[1])
+				after = f[2]
+				k, _ = strconv.Atoi(f[3])
+				x, _ = strconv.Atoi(f[4])
+			}
+			if per < 1 || per > 3 || (after != "soft" && after != "next") || k < 1 || k > 3 {
+				t.Fatalf("unknown scenario %s", name)
+			}
+			scenRecrash(s, period(per), after, k, x == 1)
 		}
 	}()
 	r.write(out)
@@ -610,6 +625,93 @@ func scenTrimDrop(s *ndScen) {
 				return in.kind == 'V' && in.step == st && in.period == 1 && in.val == w && to(A, C, E)(m.dst)
 			})
 		}
+	}
+	s.finish()
+}
+
+// ---------------------------------------------------------------------------------------------- recrash
+
+// scenRecrash: four honest nodes, no Byzantine one.  Period 0: everybody soft- and cert-votes v; the cert quorum reaches
+// X only (withX: X commits v).  R = the other three next-vote v and enter period 1 on the next-threshold for v; in every
+// recovery period 1..P their votes of the period are lost, so they move on through next-value quorums.  In period P,
+// k of them crash and restore right after their soft vote (after = soft) or their first next vote (after = next), and only
+// votes cast after the restore are delivered.  The starting value of period P lives in the period P-1 tracker
+// (voteTrackerPeriod.Cached): a restore that loses it makes the nodes next-vote ⊥, a ⊥ next-quorum forms and period P+1
+// commits a fresh block (seeded change C01-2: encode() prunes the period routers below player.Period).
+func scenRecrash(s *ndScen, P period, after string, k int, withX bool) {
+	s.start()
+	rnd := s.r.start
+	ord := s.credOrder(rnd)
+	X, R := ord[3], ord[:3]
+	inR := func(id int) bool { return id == R[0] || id == R[1] || id == R[2] }
+	s.r.note("SCENARIO recrash P=%d after=%s k=%d withX=%v X=%d R=%v", P, after, k, withX, X, R)
+	s.deliver(func(m *ndMsg, in ndInfo) bool { return in.kind == 'P' || (in.kind == 'V' && in.step == propose) })
+	for _, x := range ord {
+		s.do("t %d", x)
+	}
+	s.deliver(func(m *ndMsg, in ndInfo) bool { return in.kind == 'V' && in.step == soft && in.period == 0 }) // all cert-vote v
+	if withX {
+		s.deliver(func(m *ndMsg, in ndInfo) bool {
+			return in.kind == 'V' && in.step == cert && in.period == 0 && m.dst == X
+		}) // X commits v
+	}
+	inPeriod := func(x int, q period) bool {
+		s.r.mu.Lock()
+		defer s.r.mu.Unlock()
+		return s.r.nodes[x].round == rnd && s.r.nodes[x].period == q
+	}
+	for q := period(0); q <= P; q++ {
+		voteStep := next
+		if q > 0 {
+			for _, x := range R {
+				if inPeriod(x, q) {
+					s.do("t %d", x) // filter: soft vote for the starting value; these votes are lost
+				}
+			}
+			if q == P && after == "soft" {
+				for _, x := range R[:k] {
+					s.do("crash %d", x)
+				}
+			}
+		}
+		for _, x := range R {
+			if inPeriod(x, q) {
+				s.do("t %d", x) // deadline: first next vote of the period
+			}
+		}
+		if q == P && after == "next" {
+			for _, x := range R[:k] {
+				s.do("crash %d", x)
+			}
+			for i := 0; i < 2; i++ { // nap, then the second next vote; the first ones are lost
+				for _, x := range R {
+					if inPeriod(x, q) {
+						s.do("t %d", x)
+					}
+				}
+			}
+			voteStep = next + 1
+		}
+		s.deliver(func(m *ndMsg, in ndInfo) bool {
+			return in.kind == 'V' && in.step == voteStep && in.period == q && inR(m.dst) && inR(in.sender)
+		})
+	}
+	// period P+1: whatever it starts with gets committed by R
+	Q := P + 1
+	for i := 0; i < 2; i++ {
+		s.deliver(func(m *ndMsg, in ndInfo) bool {
+			return (in.kind == 'P' || (in.kind == 'V' && in.step == propose)) && in.period == Q && inR(m.dst) && inR(m.src)
+		})
+	}
+	for _, x := range R {
+		if inPeriod(x, Q) {
+			s.do("t %d", x)
+		}
+	}
+	for _, st := range []step{soft, cert} {
+		s.deliver(func(m *ndMsg, in ndInfo) bool {
+			return in.kind == 'V' && in.step == st && in.period == Q && inR(m.dst) && inR(in.sender)
+		})
 	}
 	s.finish()
 }
